@@ -250,6 +250,21 @@ def embedLabelDelta (s : St) (id base size : Nat) : Res :=
       | _, _ => done (appendBytes { s with relocs := s.relocs + 1 } (zeros size))
   | _, _ => report s Err.invalidLabel
 
+/-- `BaseAssembler::embed_const_pool(label, pool)` (after fix C14-12: an already bound label is refused *before* the alignment is
+emitted): validity, bound test, `align(kData, pool.alignment())`, `bind(label)`, the pool bytes.  `data` = `pool.fill()`. -/
+def embedConstPool (s : St) (id alignment : Nat) (data : Bytes) : Res :=
+  match s.labels[id]? with
+  | none => report s Err.invalidLabel
+  | some le =>
+    if le.bound.isSome then report s Err.labelAlreadyBound
+    else
+      let r1 := align s 1 alignment
+      if r1.code ≠ Err.ok then r1
+      else
+        let r2 := bind r1.st id
+        if r2.code ≠ Err.ok then r2
+        else done (appendBytes r2.st data)
+
 /-! ### sections -/
 
 def kMaxSectionNameSize : Nat := 35
@@ -321,6 +336,7 @@ inductive Op
   | embedArray (t : Nat) (data : Bytes) (count repeat_ : Nat)
   | embedLabel (id size : Nat)
   | embedLabelDelta (id base size : Nat)
+  | embedConstPool (id alignment : Nat) (data : Bytes)
   | newSection (nameLen alignment : Nat)
   | section (idx : Option Nat)
   | emit (pre : OneShot) (labelRefs : List Nat) (o : EncOutcome)
@@ -335,6 +351,7 @@ def step (s : St) : Op → Res
   | .embedArray t d c r => embedArray s t d c r
   | .embedLabel id sz => embedLabel s id sz
   | .embedLabelDelta id b sz => embedLabelDelta s id b sz
+  | .embedConstPool id a d => embedConstPool s id a d
   | .newSection n a => newSection s n a
   | .section i => switchSection s i
   | .emit pre refs o => emit s pre refs o
@@ -361,9 +378,11 @@ def handled (s : St) : List Op → List Nat
     let r := step s op
     (if r.reported ∧ r.st.handler ≠ .none then [r.code] else []) ++ handled r.st ops
 
-/-- the class of open finding C14-K1: a `bind` whose pending same-section fixup does not reach the label -/
+/-- the class of open finding C14-K1: a `bind` (also the one inside `embed_const_pool`) whose pending same-section fixup does not
+reach the label -/
 def bindOverflows (s : St) : Op → Bool
   | .bind id => (step s (.bind id)).code == Err.invalidDisplacement
+  | .embedConstPool id a d => (step s (.embedConstPool id a d)).code == Err.invalidDisplacement   -- the `bind` inside it
   | _ => false
 
 /-- no op of the history is in the class of finding C14-K1 -/
